@@ -113,17 +113,20 @@ def worker(args):
     return res
 
 
+ROOT = "/repo"
+
+
 def checks_on(m):
     """which properties report the mutant (overlay, in-process)"""
     from sa.loader import AnalysisError
     from sa.main import run_property
     from sa import cfg as _cfg, forward as _fw
-    src = open(os.path.join("/repo", m["file"])).read()
+    src = open(os.path.join(ROOT, m["file"])).read()
     new = mutate.apply(src, m["op"], m["index"])
     fired = {}
     for p in PROPS:
         try:
-            rc, sub = run_property(p, root="/repo", tier="quick", seed=0, write=False, quiet=True, overlay={m["file"]: new}, canaries=False)
+            rc, sub = run_property(p, root=ROOT, tier="quick", seed=0, write=False, quiet=True, overlay={m["file"]: new}, canaries=False)
             rules = sorted({i.rule for i in sub.instances if i.verdict == "violation"})
             if rules:
                 fired[p] = rules
@@ -143,7 +146,69 @@ def _checks_job(m):
     return m
 
 
+def rejudge(path):
+    """second phase only, on the suite-passing mutants of an earlier report: the checks are run against a frozen scratch
+    worktree of /repo HEAD (so that neither /repo nor the rules may move under the run); a mutant whose site cannot be found
+    again in today's source (same operator, same description) is counted as 'moved' and left out"""
+    global ROOT
+    import importlib
+    import multiprocessing
+    d = json.load(open(path))
+    old = d["reported"] + d["analysis_error_only"] + d["silent"]
+    ROOT = os.path.join(BASE + "_rejudge", "root")
+    sh("git -C /repo worktree remove --force %s" % ROOT)
+    shutil.rmtree(os.path.dirname(ROOT), ignore_errors=True)
+    os.makedirs(os.path.dirname(ROOT))
+    rc, out = sh("git -C /repo worktree add --detach %s HEAD" % ROOT)
+    assert rc == 0, out
+    try:
+        from sa.main import run_property
+        for p in PROPS:
+            importlib.import_module("sa.rules." + p)
+        for extra in ("pitfalls", "hidden_state", "regexlang"):
+            importlib.import_module("sa.rules." + extra)
+        dirty = []
+        for p in PROPS:
+            rc, sub = run_property(p, root=ROOT, tier="quick", seed=0, write=False, quiet=True, canaries=False)
+            if sub.unknown_violations():
+                dirty.append(p)
+        if dirty:
+            print("the unchanged tree is not clean for", dirty, "-- abort (every mutant would count as reported)")
+            return
+        todo, moved = [], 0
+        cache = {}
+        for m in old:
+            if m["file"] not in cache:
+                cache[m["file"]] = list(mutate.enumerate_sites(open(os.path.join(ROOT, m["file"])).read()))
+            sites = cache[m["file"]]
+            same = [i for (o, i, ds, ln) in sites if o == m["op"] and ds == m["desc"]]
+            if m["index"] in same:
+                idx = m["index"]
+            elif len(same) == 1:
+                idx = same[0]
+            else:
+                moved += 1
+                continue
+            todo.append({"file": m["file"], "op": m["op"], "index": idx, "desc": m["desc"], "suite_passes": True})
+        print("suite-passing mutants of %s: %d, found again: %d, moved: %d" % (path, len(old), len(todo), moved), flush=True)
+        with multiprocessing.get_context("fork").Pool(min(14, os.cpu_count() or 4)) as pool:
+            judged = list(pool.imap_unordered(_checks_job, todo, chunksize=2))
+    finally:
+        sh("git -C /repo worktree remove --force %s" % ROOT)
+        shutil.rmtree(os.path.dirname(ROOT), ignore_errors=True)
+    caught = [m for m in judged if any(v != "AE" and not str(v).startswith("crash") for v in m["reported_by"].values())]
+    ae = [m for m in judged if m not in caught and m["reported_by"]]
+    silent = [m for m in judged if not m["reported_by"]]
+    print("suite-passing mutants: %d reported by some check, %d only analysis-error, %d by none" % (len(caught), len(ae), len(silent)))
+    d.update({"reported": caught, "analysis_error_only": ae, "silent": silent, "moved": moved, "rejudged": True})
+    json.dump(d, open(path.replace(".json", "_rejudged.json"), "w"), indent=1)
+    for m in sorted(silent, key=lambda m: (m["file"], m["op"], m["desc"])):
+        print("SILENT %s [%s] %s" % (m["file"], m["op"], m["desc"]))
+
+
 def main():
+    if len(sys.argv) > 2 and sys.argv[1] == "--rejudge":
+        return rejudge(sys.argv[2])
     budget = int(sys.argv[1]) if len(sys.argv) > 1 else 600
     workers = int(sys.argv[2]) if len(sys.argv) > 2 else 12
     seed = int(sys.argv[3]) if len(sys.argv) > 3 else 1
